@@ -202,3 +202,32 @@ package parse
 //@   loop 0 invariant implies(l.state != nil, isstate(l.state) && statepre(l.state, l))
 //@   loop 0 invariant implies(l.state == nil, nsent(l.items) > old(nsent(l.items)) && (lastsent(l.items).typ == itemEOF || lastsent(l.items).typ == itemError))
 //@   loop 0 decreases ite(l.state == nil, 0, measure(l.state, l) + 1)
+
+// ---------------------------------------------------------------------------
+// Argument parsers (C09): accepted iff the argument is in the RFC 6020 section 12 language.
+
+//@ func (*BoolArg).Parse
+//@   requires a != nil
+//@   modifies a.b
+//@   nopanic
+//@   ensures iff(result == nil, a.arg == "true" || a.arg == "false")
+//@   ensures implies(result == nil, a.b == (a.arg == "true"))
+//@ func (*StatusArg).Parse
+//@   requires a != nil
+//@   nopanic
+//@   ensures iff(result == nil, a.arg == "current" || a.arg == "obsolete" || a.arg == "deprecated")
+//@ func (*OrdByArg).Parse
+//@   requires a != nil
+//@   nopanic
+//@   ensures iff(result == nil, a.arg == "system" || a.arg == "user")
+//@ func (*DeviateArg).Parse
+//@   requires a != nil
+//@   nopanic
+//@   ensures iff(result == nil, a.arg == "add" || a.arg == "delete" || a.arg == "replace" || a.arg == "not-supported")
+//@ func (*YangVersionArg).Parse
+//@   requires a != nil
+//@   nopanic
+//@   ensures iff(result == nil, a.arg == "1")
+//@ func (EmptyArg).Parse
+//@   nopanic
+//@   ensures iff(result == nil, a.arg == "")
